@@ -394,7 +394,9 @@ def link_id_href(ir, tspecs, values, rng):
                 if 'attr' in ft and ft['attr'].get('prim') == 'Unicode' and isinstance(v.get(fn), str):
                     if fn == 'id' and v[fn]:
                         ids.append(v[fn])
-                    elif fn == 'href':
+                    elif fn == 'href' and any(v.get(f2) is not None for f2, t2 in gen.all_fields(ir, v.get('__class__', t['ref'])) if 'attr' not in t2):
+                        # (an element WITHOUT content whose href is '#' + an id of the message is, to SOAP section 5, the accessor of
+                        #  a multi-reference value - that reading and the user's own schema cannot both hold, so such a value is not made)
                         hrefs.append((v, fn))
                 elif fn in v:
                     walk(ft, v[fn])
@@ -465,8 +467,63 @@ def run_universe(R, seed, uid, tier, only=None, headers=False):
                     run_call(R, C, md, args, rets, driver, rng, repro)
 
 
+def multiref_scenario(R, seed):
+    """SOAP section-5 multi-reference values as the toolkits that use that encoding write them: the arguments are accessors
+    (href) to independent elements of the Body that carry the data; one target may be referenced twice, targets may refer
+    to further targets. Every accessor denotes the value of its target."""
+    from spyne import Application, Service, rpc, ComplexModel, Integer, Unicode, Array
+    from spyne.protocol.soap import Soap11, Soap12
+    from spyne.server import ServerBase
+    got = []
+    NS = 'urn:vf:c01:mr'
+    Inner = type('MrInner', (ComplexModel,), {'__namespace__': NS, '_type_info': [('k', Integer)]})
+    Item = type('MrItem', (ComplexModel,), {'__namespace__': NS, '_type_info': [('v', Integer), ('s', Unicode), ('inner', Inner), ('many', Array(Integer))]})
+
+    def flat(it):
+        return None if it is None else (it.v, it.s, None if it.inner is None else it.inner.k, None if it.many is None else list(it.many))
+
+    class S(Service):
+        @rpc(Item, Item, Item, _returns=Integer)
+        def three(ctx, a, b, c):
+            got.append((flat(a), flat(b), flat(c)))
+            return 1
+    T1 = '<t:MrItem id="id1"><t:v>1</t:v><t:s>one</t:s><t:inner href="#id3"/><t:many><t:integer>4</t:integer><t:integer>5</t:integer></t:many></t:MrItem>'
+    T2 = '<t:MrItem id="id2"><t:v>2</t:v><t:s>two</t:s></t:MrItem>'
+    T3 = '<t:MrInner id="id3"><t:k>7</t:k></t:MrInner>'
+    one, two = (1, 'one', 7, [4, 5]), (2, 'two', None, None)
+    cases = [('same_target_twice', '<t:a href="#id1"/><t:b href="#id1"/><t:c href="#id2"/>', (one, one, two)),
+             ('all_same', '<t:a href="#id2"/><t:b href="#id2"/><t:c href="#id2"/>', (two, two, two)),
+             ('mixed_inline', '<t:a><t:v>9</t:v><t:s>in</t:s></t:a><t:b href="#id1"/><t:c href="#id1"/>', ((9, 'in', None, None), one, one)),
+             ('reverse_order', '<t:a href="#id2"/><t:b href="#id1"/>', (two, one, None))]
+    for cls, envns in ((Soap11, 'http://schemas.xmlsoap.org/soap/envelope/'), (Soap12, 'http://www.w3.org/2003/05/soap-envelope')):
+        for validator in (None, 'soft'):
+            app = Application([S], NS, name='MrApp', in_protocol=cls(validator=validator), out_protocol=cls())
+            srv = ServerBase(app)
+            for label, accessors, want in cases:
+                for targets in (T1 + T2 + T3, T3 + T2 + T1):
+                    body = ('<e:Envelope xmlns:e="%s" xmlns:t="%s"><e:Body><t:three>%s</t:three>%s</e:Body></e:Envelope>' % (
+                        envns, NS, accessors, targets)).encode()
+                    del got[:]
+                    R.evaluations += 1
+                    R.count('multiref_requests')
+                    r = drive.drive_server(srv, body)
+                    case = {'seed': seed, 'scenario': 'multiref', 'protocol': cls.__name__, 'validator': validator, 'label': label,
+                            'request': body.decode()}
+                    if r.exc is not None:
+                        R.violation('multi-reference request: %r escaped' % r.exc, case, mech='escape:%s' % type(r.exc).__name__)
+                    elif r.error is not None:
+                        R.violation('multi-reference request answered with fault %s: %s' % (r.error.faultcode, str(r.error.faultstring)[:150]), case,
+                                    mech='multiref_fault:%s' % str(r.error.faultcode).split(':')[-1])
+                    elif got != [want]:
+                        R.violation('multi-reference request (%s): the function received %r, the accessors denote %r' % (label, got, want), case,
+                                    mech='multiref_values_differ:%s' % label)
+                    else:
+                        R.nontrivial('multiref', cls.__name__, validator, label)
+
+
 def run(spec, R):
     if spec['first'] == 0:
+        multiref_scenario(R, spec['seed'])
         run_universe(R, spec['seed'], 9400, spec['tier'])
     for uid in range(spec['first'], spec['first'] + spec['count']):
         run_universe(R, spec['seed'], uid, spec['tier'])
@@ -476,6 +533,11 @@ def run(spec, R):
 
 def replay(v, R):
     c = v['repro']
+    if c.get('scenario') == 'multiref':
+        multiref_scenario(R, c['seed'])
+        for x in R.violations[:10]:
+            print('replayed:', x.get('mech'), x.get('what'))
+        return
     run_universe(R, c['seed'], c['uid'], 'thorough', headers=bool(c.get('headers')))
     for x in R.violations[:10]:
         print('replayed:', x.get('mech'), x.get('what'))
